@@ -176,6 +176,13 @@ def run(pid, tier, seed):
         if s.get("sample") and len(samples) < 3:
             samples.append({"kind": "TLC behaviour replayed into the library (%s)" % r["name"],
                             "behaviour": json.loads(s["sample"])})
+        if r["crash"]:
+            try:
+                reqs = "\n".join(json.dumps(h["ev"]) for h in json.loads(r["crash"]["beh"]))
+            except ValueError:
+                reqs = ""
+            path = vlib.save_replay(pid, "%s-crash.ndjson" % r["name"], reqs + "\n")
+            violations.append(("crash", "the library crashed (rc=%s) while executing a TLC behaviour" % r["crash"]["rc"], path))
         for f in r["fails"]:
             if not mine(pid, f):
                 foreign += 1
